@@ -106,6 +106,8 @@ def mutants(ids: list[str], jobs: int = 1) -> int:
         if ids and d not in ids:
             continue
         if os.path.exists(os.path.join(root, d, "meta.json")) and os.path.exists(os.path.join(root, d, "patch.diff")):
+            if json.load(open(os.path.join(root, d, "meta.json"))).get("obsolete") and not ids:
+                continue  # made harmless by a later fix: to /repo (see its meta.json)
             names.append(d)
     with ThreadPoolExecutor(max_workers=max(1, jobs)) as ex:
         rows = []
